@@ -44,7 +44,7 @@ ORDER = (
 class Snapshot(dict):
     """component -> canonical value; equality is dict equality"""
 
-    def key(self, without=('dataset-identity', 'name', 'iie-identity')):
+    def key(self, without=('dataset-identity', 'iie-identity')):
         """content digest (identity-free) -- used for 'did the result differ from the input'"""
         h = hashlib.sha256()
         for k in ORDER:
